@@ -8,19 +8,25 @@
   code, and malformed argument order is rejected.  The text a quantizer prints for itself parses
   back to a quantizer that computes the same function.
 
-  What is proved, and what the unchanged code violates:
+  What is proved (after the fix round — `known/C10.json` lists what was repaired):
   * `C10_parse_eq_python`: on the generated grammar — `name(arg,…,key=arg,…)`, arguments
     `None/True/False`, signed decimal integers, signed decimal floats with optional exponent,
-    quoted strings, keywords pairwise distinct — the safe_eval model returns exactly Python's
-    reading.  Carved out with counterexample theorems: bracketed lists (`[2,3]`, `[2]`, `[]`),
-    repeated keywords, literals Python rejects but `int()` accepts (`08`).
-  * `C10_order_rejected`, `C10_no_code`.
-  * `C10_str_roundtrip_partial`: `get_quantizer(str(q))` rebuilds `q` whenever `str(q)` is the
-    rendering of a call whose Python evaluation constructs `q` (`Printable`); the observed
-    failures are `C10_str_counterexample_*`.
+    quoted strings, lists of numbers, any keywords — the safe_eval model returns exactly Python's
+    reading, the two `SyntaxError` verdicts (positional after keyword, repeated keyword) included.
+    Still carved out with counterexample theorems: literals Python rejects but `int()` accepts
+    (`08`), the old blank-separated list `[2 3]`, a second `(`.
+  * `C10_order_rejected`, `C10_repeated_keyword_rejected`, `C10_no_code`.
+  * `C10_str_slots`: for every quantizer of every class, Python's call binding of the values the
+    printed flags denote gives, for every option `__str__` can express, an argument `==` the
+    option (the former wrong-slot / omitted-option / raising defects are `…_fixed_witness`).
+  * `C10_str_roundtrip`: when moreover every printed text is a literal of the grammar
+    (`Readable`, decidable; floats are the only texts it is not proved for in general),
+    `get_quantizer(str(q))` runs the constructor body on such arguments; closed universal forms
+    for `quantized_tanh` / `quantized_sigmoid`.
+    Kept as `C10_str_counterexample_qnoise_factor`: `qnoise_factor` is never printed.
   Model: QKV.Model.Parse / QKV.Model.Print.  This file holds ONLY property theorems.
 -/
-import QKV.Lemmas.Parse
+import QKV.Lemmas.Print
 import QKV.Lemmas.Config
 namespace QKV.Props.C10
 open QKV.Py
@@ -30,61 +36,67 @@ structure Grammar (name : String) (as : List Arg) : Prop where
   name : isIdent name = true
   args : ∀ a ∈ as, a.wf = true
 
+private theorem Grammar.rd {name : String} {as : List Arg} (g : Grammar name as) :
+    ∀ a ∈ as, a.rd = true := fun a ha => Arg.rd_of_wf a (g.args a ha)
+
 /-! ## literals -/
 
 /-- `GetArg` reads every literal of the grammar exactly as Python evaluates it
     (all digit-string lengths, all string contents over the allowed alphabet) -/
-theorem C10_getarg_literal (l : Lit) (h : l.wf = true) : getArg l.text = l.val := getArg_lit l h
+theorem C10_getarg_literal (l : Lit) (h : l.wf = true) : getArg l.text = l.val :=
+  getArg_lit l (Lit.rd_of_wf l h)
 
 /-- the decimal text of every natural number reads back as that integer, so `str(int)`
     flags (bit widths, axes, exponents) re-parse exactly for all values -/
 theorem C10_getarg_nat (n : Nat) : getArg (toString n).toList = .int n := by
-  have hd : allDigits (Nat.toDigits 10 n) = true := by
-    rw [allDigits_iff]
-    refine ⟨Nat.toDigits_ne_nil, fun c hc => ?_⟩
-    have := Nat.isDigit_of_mem_toDigits (by decide) (by decide) hc
-    simp only [Char.isDigit, Bool.and_eq_true, decide_eq_true_eq] at this
-    simp only [isDig, Bool.and_eq_true, decide_eq_true_eq]
-    have h1 : (48 : UInt32).toNat ≤ c.val.toNat := UInt32.le_iff_toNat_le.1 this.1
-    have h2 : c.val.toNat ≤ (57 : UInt32).toNat := UInt32.le_iff_toNat_le.1 this.2
-    exact ⟨h1, h2⟩
-  have hv : digitsVal (Nat.toDigits 10 n) = n := by
-    have := Nat.ofDigitChars_ten_toDigits (n := n)
-    simpa [Nat.ofDigitChars, digitsVal, digitVal] using this
   have ht : (toString n).toList = signText false ++ Nat.toDigits 10 n := by
     simp [signText]
-  rw [ht, getArg_int false _ hd, hv]
+  rw [ht, getArg_int false _ (allDigits_toDigits n), digitsVal_toDigits]
   rfl
+
+/-- … and so does the text of every integer, negative ones included -/
+theorem C10_getarg_int (i : Int) : getArg (toString i).toList = .int i := by
+  rw [← intLit_text, getArg_lit _ (intLit_rd i), intLit_val]
 
 /-! ## the call -/
 
 /-- **safe_eval = Python on the grammar.**  For every call expression of the generated
-    grammar with pairwise distinct keywords, the arguments safe_eval extracts are exactly the
-    ones Python's own evaluation of the expression gives — including the `SyntaxError` for a
-    positional argument after a keyword argument. -/
-theorem C10_parse_eq_python (name : String) (as : List Arg) (g : Grammar name as)
-    (hk : (argKeys as).Nodup) : parseCall (render name as) = pyCall name as := by
-  rw [parseCall_render name as g.name g.args]
+    grammar (number lists included) the arguments safe_eval extracts are exactly the ones
+    Python's own evaluation of the expression gives — including the `SyntaxError` for a
+    positional argument after a keyword argument and for a repeated keyword. -/
+theorem C10_parse_eq_python (name : String) (as : List Arg) (g : Grammar name as) :
+    parseCall (render name as) = pyCall name as := by
+  rw [parseCall_render name as g.name g.rd]
   unfold pyCall
   cases h : argPosAfterKw as
-  · simp only [Bool.false_eq_true, if_false, hk, if_true]
-    rw [itemKwargs_render as g.args [] (by simpa [Env.keys] using hk)]
-    rfl
+  · by_cases hk : (argKeys as).Nodup
+    · simp only [Bool.false_eq_true, if_false, hk, if_true]
+      rw [itemKwargs_render as g.rd [] (by simpa [Env.keys] using hk)]
+      rfl
+    · simp only [Bool.false_eq_true, if_false, hk]
   · rfl
 
 /-- the accepted case spelled out: positional values in order, keyword values by name -/
 theorem C10_parse_ok (name : String) (as : List Arg) (g : Grammar name as)
     (ho : argPosAfterKw as = false) (hk : (argKeys as).Nodup) :
     parseCall (render name as) = .ok ⟨name, argVals as, argKwargs as, true⟩ := by
-  rw [C10_parse_eq_python name as g hk]
+  rw [C10_parse_eq_python name as g]
   simp [pyCall, ho, hk]
 
 /-- **malformed order is rejected**: any positional argument after a keyword argument gives
     `SyntaxError`, whatever else the call contains (repeated keywords included) -/
 theorem C10_order_rejected (name : String) (as : List Arg) (g : Grammar name as)
     (h : argPosAfterKw as = true) : parseCall (render name as) = .error .syntaxError := by
-  rw [parseCall_render name as g.name g.args, h]
+  rw [parseCall_render name as g.name g.rd, h]
   rfl
+
+/-- **a repeated keyword is rejected**, as Python rejects it -/
+theorem C10_repeated_keyword_rejected (name : String) (as : List Arg) (g : Grammar name as)
+    (h : ¬ (argKeys as).Nodup) : parseCall (render name as) = .error .syntaxError := by
+  rw [C10_parse_eq_python name as g]
+  by_cases ho : argPosAfterKw as = true
+  · simp [pyCall, ho]
+  · simp [pyCall, ho, h]
 
 /-- **no code is executed**: whatever the text, each extracted argument is one of the five
     literal forms computed from the token's characters … -/
@@ -118,25 +130,14 @@ theorem C10_no_code (s : List Char) (q : Q) (h : safeEval s = .ok q) :
     · rename_i cls hl
       exact ⟨c, cls, hc, hl, h⟩
 
-/-! ## where safe_eval is NOT Python (carved out of the grammar) -/
+/-! ## where safe_eval is still NOT Python (outside the grammar) -/
 
-/-- Python list syntax: `[2,3]` as a keyword value is cut at the comma → `SyntaxError` -/
-theorem C10_parse_counterexample_list_kw :
-    parseCall "binary(scale_axis=[2,3])".toList = .error .syntaxError := by decide +kernel
-/-- positional `[2,3]` becomes two empty strings, `[2]` the string "2", `[]` the empty string -/
-theorem C10_parse_counterexample_list_pos :
-    parseCall "f([2,3])".toList = .ok ⟨"f", [.str "", .str ""], [], true⟩ ∧
-    parseCall "f(a=[2])".toList = .ok ⟨"f", [], [("a", .str "2")], true⟩ ∧
-    parseCall "f(a=[])".toList = .ok ⟨"f", [], [("a", .str "")], true⟩ := by decide +kernel
-/-- the only list form that is understood is not Python: space separated, keyword only -/
+/-- the blank-separated list of the unrepaired parser is still understood (not Python syntax) -/
 theorem C10_parse_counterexample_list_space :
     parseCall "f(a=[2 3])".toList = .ok ⟨"f", [], [("a", .list [.int 2, .int 3])], true⟩ ∧
-    parseCall "f([2 3])".toList = .error .parseException := by decide +kernel
-/-- a repeated keyword is a `SyntaxError` in Python; safe_eval silently keeps the last value -/
-theorem C10_parse_counterexample_repeated_kw :
-    let as := [Arg.kw "a" (.int false ['1']), Arg.kw "a" (.int false ['2'])]
-    parseCall (render "f" as) = .ok ⟨"f", [], [("a", .int 2)], true⟩ ∧
-      pyCall "f" as = .error .syntaxError := by decide +kernel
+    parseCall "f([2 3])".toList = .ok ⟨"f", [.list [.int 2, .int 3]], [], true⟩ ∧
+    parseCall "f(a=2 3)".toList = .ok ⟨"f", [], [("a", .list [.int 2, .int 3])], true⟩ := by
+  decide +kernel
 /-- text Python rejects or reads differently is accepted: `08` → 8, `true` → "ru", `x` → "" -/
 theorem C10_parse_counterexample_nonliterals :
     parseCall "f(08)".toList = .ok ⟨"f", [.int 8], [], true⟩ ∧
@@ -147,49 +148,200 @@ theorem C10_parse_counterexample_second_paren :
     parseCall "quantized_bits(4,alpha='a(b')".toList = .ok ⟨"quantized_bits", [], [], false⟩ := by
   decide +kernel
 
+/-! ## repaired parser defects: regression witnesses (the old failing inputs) -/
+
+/-- Python list literals are read: as a keyword value, positionally, with one element, empty
+    (was: SyntaxError / two empty strings / the string "2" / the empty string) -/
+theorem C10_parse_list_fixed_witness :
+    parseCall "binary(scale_axis=[2,3])".toList
+      = .ok ⟨"binary", [], [("scale_axis", .list [.int 2, .int 3])], true⟩ ∧
+    parseCall "f([2,3])".toList = .ok ⟨"f", [.list [.int 2, .int 3]], [], true⟩ ∧
+    parseCall "f(a=[2])".toList = .ok ⟨"f", [], [("a", .list [.int 2])], true⟩ ∧
+    parseCall "f(a=[])".toList = .ok ⟨"f", [], [("a", .list [])], true⟩ ∧
+    parseCall "f(a=[1, 2.5], b=3)".toList
+      = .ok ⟨"f", [], [("a", .list [.int 1, .float (5 / 2)]), ("b", .int 3)], true⟩ := by
+  decide +kernel
+/-- a repeated keyword is a `SyntaxError`, as in Python (was: the last value silently kept) -/
+theorem C10_parse_repeated_kw_fixed_witness :
+    let as := [Arg.kw "a" (.int false ['1']), Arg.kw "a" (.int false ['2'])]
+    parseCall (render "f" as) = .error .syntaxError ∧ pyCall "f" as = .error .syntaxError := by
+  decide +kernel
+/-- a blank between a keyword value and the next `,` / `)` is ignored
+    (was: `'one'`, `"x'"`, `'rue'`) -/
+theorem C10_parse_trailing_blank_fixed_witness :
+    parseCall "f(a=None )".toList = .ok ⟨"f", [], [("a", .none)], true⟩ ∧
+    parseCall "f(a='x' ,b=True )".toList
+      = .ok ⟨"f", [], [("a", .str "x"), ("b", .bool true)], true⟩ := by decide +kernel
+
 /-! ## str(q) round trip -/
 
-/-- `str(q)` is the rendering of a grammar call whose Python evaluation constructs `q` -/
-def Printable (q : Q) : Prop :=
-  ∃ as, Grammar q.cls.name as ∧ (argKeys as).Nodup ∧
-    printQ q = .ok (String.ofList (render q.cls.name as)) ∧
-    (match pyCall q.cls.name as with
-     | .ok c => construct q.cls c.args c.kwargs
-     | .error e => .error e) = .ok q
+/-- every printed flag is the text of a grammar literal denoting the flag's value -/
+def Readable (fl : List Flag) (as : List Arg) : Prop := List.Forall₂ FlagLit fl as
 
 private theorem lookup_name (c : Cls) : lookup c.name = some c := by cases c <;> decide
+private theorem ident_name (c : Cls) : isIdent c.name = true := by cases c <;> decide +kernel
 
-/-- whenever `str(q)` lies in the grammar, `get_quantizer(str(q))` does exactly what Python's
-    evaluation of `str(q)` would do (safe_eval adds no deviation of its own) -/
-theorem C10_str_reparse_eq_python (q : Q) (as : List Arg) (g : Grammar q.cls.name as)
-    (hk : (argKeys as).Nodup) (hp : printQ q = .ok (String.ofList (render q.cls.name as))) :
-    reparse q = match pyCall q.cls.name as with
-      | .ok c => construct q.cls c.args c.kwargs
-      | .error e => .error e := by
+/-- **every option lands in its own slot (all 14 classes, all option values).**
+    Bind the values the printed flags of `str(q)` denote — positional flags in order, keyword
+    flags by name — with Python's call binding: it succeeds, and for every option `__str__`
+    can express the bound argument is `==` the option `q` holds (printed in its own slot, or
+    omitted exactly when it `==` its default).  `Typed q`: each `if …: flags.append(…)`
+    statement is locally correct for the value it sees (decidable; it fails only for ill-typed
+    options such as a string where a flag is expected). -/
+theorem C10_str_slots (q : Q) (fl : List Flag) (hf : flagsF q = .ok fl) (ht : Typed q) :
+    ∃ e', bind (params q.cls) (posVals fl) (kwVals fl) = .ok e' ∧
+      ∀ k ∈ printedNames q.cls, (e'.get k).pyEq (q.get k) = true :=
+  flags_bind q fl hf ht
+
+/-- whenever the printed flags are readable, `str(q)` is the rendering of a grammar call,
+    Python's reading of that call has exactly the denoted values as arguments, and
+    `get_quantizer(str(q))` is the constructor applied to them (safe_eval adds no deviation) -/
+theorem C10_str_reparse_eq_python (q : Q) (fl : List Flag) (as : List Arg)
+    (hf : flagsF q = .ok fl) (hr : Readable fl as) :
+    printQ q = .ok (String.ofList (render q.cls.name as)) ∧
+    pyCall q.cls.name as = .ok ⟨q.cls.name, posVals fl, kwVals fl, true⟩ ∧
+    reparse q = construct q.cls (posVals fl) (kwVals fl) := by
+  obtain ⟨hrd, htext, hvals, hkw, hord⟩ := flagLit_facts fl as hr
+  obtain ⟨hshape, hnd⟩ := flagsF_shape q fl hf
+  have hp : printQ q = .ok (String.ofList (render q.cls.name as)) := by
+    unfold printQ render
+    rw [hf, htext]
+  have hord' : argPosAfterKw as = false := by rw [hord, hshape]
+  have hkeys : (argKeys as).Nodup := by
+    unfold argKeys; rw [hkw]; exact hnd
+  have hpy : pyCall q.cls.name as = .ok ⟨q.cls.name, posVals fl, kwVals fl, true⟩ := by
+    unfold pyCall
+    simp only [hord', Bool.false_eq_true, if_false, hkeys, if_true, hvals, hkw]
+  refine ⟨hp, hpy, ?_⟩
   unfold reparse safeEval
   rw [hp]
-  simp only [String.toList_ofList, C10_parse_eq_python _ as g hk]
-  cases h : pyCall q.cls.name as with
-  | error e => rfl
-  | ok c =>
-    have hn : c.name = q.cls.name := by
-      unfold pyCall at h
-      split at h
-      · cases h
-      · cases h; rfl
-    simp only [hn, lookup_name]
+  simp only [String.toList_ofList, parseCall_render _ as (ident_name q.cls) hrd, hord',
+    Bool.false_eq_true, if_false, hkeys, if_true,
+    itemKwargs_render as hrd [] (by simpa [Env.keys] using hkeys), lookup_name, hvals, hkw,
+    List.nil_append]
 
-/-- **str round trip (partial).**  A printable quantizer is rebuilt by `get_quantizer(str(q))`
-    as an instance with identical class and stored arguments, hence with the same function. -/
-theorem C10_str_roundtrip_partial (q : Q) (h : Printable q) :
-    reparse q = .ok q ∧ ∀ {α : Type} (apply : Q → α) (q' : Q), reparse q = .ok q' → apply q' = apply q := by
-  obtain ⟨as, g, hk, hp, hc⟩ := h
-  have h1 : reparse q = .ok q := (C10_str_reparse_eq_python q as g hk hp).trans hc
-  refine ⟨h1, ?_⟩
-  intro α apply q' h'
-  rw [h1] at h'; cases h'; rfl
+/-- **str round trip.**  For a quantizer whose printed flags are readable and whose `__str__`
+    statements are locally correct, `get_quantizer(str(q))` runs the constructor body (`init`:
+    argument checks and normalisations) on an argument list in which every option `__str__`
+    can express is `==` the option of `q`. -/
+theorem C10_str_roundtrip (q : Q) (fl : List Flag) (as : List Arg)
+    (hf : flagsF q = .ok fl) (hr : Readable fl as) (ht : Typed q) :
+    ∃ e', reparse q = init q.cls e' ∧
+      ∀ k ∈ printedNames q.cls, (e'.get k).pyEq (q.get k) = true := by
+  obtain ⟨e', hb, hall⟩ := C10_str_slots q fl hf ht
+  refine ⟨e', ?_, hall⟩
+  rw [(C10_str_reparse_eq_python q fl as hf hr).2.2]
+  unfold construct
+  rw [hb]
 
-/-! ### counterexamples of the str direction (each replayed on the real code) -/
+/-- the same with the readability witness computed (`readFlags` finds the literal of every
+    flag text and checks it): the form used for concrete instances -/
+theorem C10_str_roundtrip_checked (q : Q) (fl : List Flag) (as : List Arg)
+    (hf : flagsF q = .ok fl) (hr : readFlags fl = some as) (ht : Typed q) :
+    ∃ e', reparse q = init q.cls e' ∧
+      ∀ k ∈ printedNames q.cls, (e'.get k).pyEq (q.get k) = true :=
+  C10_str_roundtrip q fl as hf (readFlags_sound fl as hr) ht
+
+/-- … and with all hypotheses decided for a concrete call `cls(*args, **kw)` -/
+theorem C10_str_roundtrip_instance (c : Cls) (args : List PyVal) (kw : Env)
+    (h : roundTripHyps c args kw = true) :
+    ∃ q e', construct c args kw = .ok q ∧ reparse q = init q.cls e' ∧
+      ∀ k ∈ printedNames q.cls, (e'.get k).pyEq (q.get k) = true := by
+  unfold roundTripHyps at h
+  cases hq : construct c args kw with
+  | error e => rw [hq] at h; cases h
+  | ok q =>
+    rw [hq] at h
+    simp only [Bool.and_eq_true, decide_eq_true_eq] at h
+    obtain ⟨h1, ht⟩ := h
+    cases hf : flagsF q with
+    | error e => rw [hf] at h1; cases h1
+    | ok fl =>
+      rw [hf] at h1
+      simp only at h1
+      cases hr : readFlags fl with
+      | none => rw [hr] at h1; cases h1
+      | some as =>
+        obtain ⟨e', h2, h3⟩ := C10_str_roundtrip_checked q fl as hf hr ht
+        exact ⟨q, e', rfl, h2, h3⟩
+
+/-- **closed form, `quantized_tanh`**: for every bit width and every combination of the three
+    flags (the class whose flags used to land in each other's slots) the string round trip
+    rebuilds a quantizer whose every constructor argument is `==` the original's. -/
+theorem C10_str_roundtrip_tanh (b : Nat) (u s r : Bool) :
+    let q : Q := ⟨.quantized_tanh, [("bits", .int b), ("use_stochastic_rounding", .bool u),
+      ("symmetric", .bool s), ("use_real_tanh", .bool r)]⟩
+    ∃ q', reparse q = .ok q' ∧ q'.cls = .quantized_tanh ∧
+      ∀ k ∈ paramNames .quantized_tanh, (q'.get k).pyEq (q.get k) = true := by
+  intro q
+  -- the flags are integers: the bit width, then 0/1 up to the last flag that is set
+  let mk : Int → Flag := fun i => ⟨none, .int i, toString i⟩
+  let bi : Bool → Int := fun x => if x then 1 else 0
+  let ints : List Int := (b : Int) ::
+    (if u || s || r then bi u :: (if s || r then bi s :: (if r then [bi r] else []) else []) else [])
+  have hf : flagsF q = .ok (ints.map mk) := by cases u <;> cases s <;> cases r <;> rfl
+  have hread : ∀ (l : List Int), Readable (l.map mk) (l.map fun i => .pos (intLit i)) := by
+    intro l
+    induction l with
+    | nil => exact List.Forall₂.nil
+    | cons i t ih => exact List.Forall₂.cons (flagLit_int none (fun k hk => by cases hk) i) ih
+  have ht : Typed q := by
+    refine ⟨fun sp hsp => ?_, fun sp hsp => ?_⟩
+    · have h : sp ∈ ([⟨"bits", .always, .str⟩, ⟨"use_stochastic_rounding", .truthy, .int⟩,
+          ⟨"symmetric", .truthy, .int⟩, ⟨"use_real_tanh", .truthy, .int⟩] : List FlagSpec) := hsp
+      simp only [List.mem_cons, List.not_mem_nil, or_false] at h
+      rcases h with rfl | rfl | rfl | rfl
+      · exact semOK_always_str _ _ _
+      · cases u <;> rfl
+      · cases s <;> rfl
+      · cases r <;> rfl
+    · have h : sp ∈ ([] : List FlagSpec) := hsp
+      cases h
+  obtain ⟨e', hre, hall⟩ := C10_str_roundtrip q _ _ hf (hread ints) ht
+  refine ⟨⟨.quantized_tanh, e'⟩, ?_, rfl, ?_⟩
+  · rw [hre]; rfl
+  · intro k hk
+    exact hall k hk
+
+/-- **closed form, `quantized_sigmoid`** (same statement for the other class whose flags
+    shifted): every bit width, every combination of the three flags -/
+theorem C10_str_roundtrip_sigmoid (b : Nat) (sy re u : Bool) :
+    let q : Q := ⟨.quantized_sigmoid, [("bits", .int b), ("symmetric", .bool sy),
+      ("use_real_sigmoid", .bool re), ("use_stochastic_rounding", .bool u)]⟩
+    ∃ q', reparse q = .ok q' ∧ q'.cls = .quantized_sigmoid ∧
+      ∀ k ∈ paramNames .quantized_sigmoid, (q'.get k).pyEq (q.get k) = true := by
+  intro q
+  let mk : Int → Flag := fun i => ⟨none, .int i, toString i⟩
+  let bi : Bool → Int := fun x => if x then 1 else 0
+  let ints : List Int := (b : Int) ::
+    (if sy || re || u then bi sy :: (if re || u then bi re :: (if u then [bi u] else []) else []) else [])
+  have hf : flagsF q = .ok (ints.map mk) := by cases sy <;> cases re <;> cases u <;> rfl
+  have hread : ∀ (l : List Int), Readable (l.map mk) (l.map fun i => .pos (intLit i)) := by
+    intro l
+    induction l with
+    | nil => exact List.Forall₂.nil
+    | cons i t ih => exact List.Forall₂.cons (flagLit_int none (fun k hk => by cases hk) i) ih
+  have ht : Typed q := by
+    refine ⟨fun sp hsp => ?_, fun sp hsp => ?_⟩
+    · have h : sp ∈ ([⟨"bits", .always, .str⟩, ⟨"symmetric", .truthy, .int⟩,
+          ⟨"use_real_sigmoid", .truthy, .int⟩, ⟨"use_stochastic_rounding", .truthy, .int⟩] :
+          List FlagSpec) := hsp
+      simp only [List.mem_cons, List.not_mem_nil, or_false] at h
+      rcases h with rfl | rfl | rfl | rfl
+      · exact semOK_always_str _ _ _
+      · cases sy <;> rfl
+      · cases re <;> rfl
+      · cases u <;> rfl
+    · have h : sp ∈ ([] : List FlagSpec) := hsp
+      cases h
+  obtain ⟨e', hre, hall⟩ := C10_str_roundtrip q _ _ hf (hread ints) ht
+  refine ⟨⟨.quantized_sigmoid, e'⟩, ?_, rfl, ?_⟩
+  · rw [hre]; rfl
+  · intro k hk
+    exact hall k hk
+
+/-! ### the former failures of the str direction, now regression witnesses
+    (each evaluates the model at the old failing input; replayed on the real code by the tie) -/
 
 /-- outcome of `get_quantizer(str(cls(**kw)))`: the printed text and the rebuilt instance -/
 def strTrip (c : Cls) (kw : Env) : Except Err (String × Except Err Q) :=
@@ -207,94 +359,132 @@ private def text (r : Except Err (String × Except Err Q)) : Option String :=
   match r with
   | .ok (s, _) => some s
   | _ => none
-private def outcome (r : Except Err (String × Except Err Q)) : Option Err :=
-  match r with
-  | .ok (_, .error e) => some e
-  | _ => none
 
-/-- `quantized_tanh(symmetric=True)` prints "quantized_tanh(8,1)"; the 1 re-parses into
-    `use_stochastic_rounding` and `symmetric` is lost -/
-theorem C10_str_counterexample_tanh_symmetric :
+/-- `quantized_tanh(symmetric=True)` printed "quantized_tanh(8,1)" (→ use_stochastic_rounding);
+    now the skipped slot is printed -/
+theorem C10_str_tanh_symmetric_fixed_witness :
     let r := strTrip .quantized_tanh [("symmetric", .bool true)]
-    text r = some "quantized_tanh(8,1)" ∧ slot r "use_stochastic_rounding" = some (.int 1) ∧
-      slot r "symmetric" = some (.bool false) := by decide +kernel
-/-- `quantized_tanh(use_real_tanh=True)` lands in `use_stochastic_rounding` as well -/
-theorem C10_str_counterexample_tanh_real :
+    text r = some "quantized_tanh(8,0,1)" ∧ slot r "use_stochastic_rounding" = some (.int 0) ∧
+      slot r "symmetric" = some (.int 1) := by decide +kernel
+theorem C10_str_tanh_real_fixed_witness :
     let r := strTrip .quantized_tanh [("use_real_tanh", .bool true)]
-    text r = some "quantized_tanh(8,1)" ∧ slot r "use_stochastic_rounding" = some (.int 1) ∧
-      slot r "use_real_tanh" = some (.bool false) := by decide +kernel
-/-- `quantized_sigmoid(use_real_sigmoid=True)` prints "quantized_sigmoid(8,1)" → `symmetric` -/
-theorem C10_str_counterexample_sigmoid_real :
+    text r = some "quantized_tanh(8,0,0,1)" ∧ slot r "use_stochastic_rounding" = some (.int 0) ∧
+      slot r "use_real_tanh" = some (.int 1) := by decide +kernel
+/-- `quantized_sigmoid(use_real_sigmoid=True)` printed "quantized_sigmoid(8,1)" (→ symmetric) -/
+theorem C10_str_sigmoid_real_fixed_witness :
     let r := strTrip .quantized_sigmoid [("use_real_sigmoid", .bool true)]
-    text r = some "quantized_sigmoid(8,1)" ∧ slot r "symmetric" = some (.int 1) ∧
-      slot r "use_real_sigmoid" = some (.bool false) := by decide +kernel
-theorem C10_str_counterexample_sigmoid_stochastic :
+    text r = some "quantized_sigmoid(8,0,1)" ∧ slot r "symmetric" = some (.int 0) ∧
+      slot r "use_real_sigmoid" = some (.int 1) := by decide +kernel
+theorem C10_str_sigmoid_stochastic_fixed_witness :
     let r := strTrip .quantized_sigmoid [("use_stochastic_rounding", .bool true)]
-    text r = some "quantized_sigmoid(8,1)" ∧ slot r "symmetric" = some (.int 1) ∧
-      slot r "use_stochastic_rounding" = some (.bool false) := by decide +kernel
-/-- `quantized_relu(negative_slope=0.25)` prints "quantized_relu(8,0,0.25)" → `use_sigmoid` -/
-theorem C10_str_counterexample_relu_slope :
+    text r = some "quantized_sigmoid(8,0,0,1)" ∧ slot r "symmetric" = some (.int 0) ∧
+      slot r "use_stochastic_rounding" = some (.int 1) := by decide +kernel
+/-- `quantized_relu(negative_slope=0.25)` printed "quantized_relu(8,0,0.25)" (→ use_sigmoid) -/
+theorem C10_str_relu_slope_fixed_witness :
     let r := strTrip .quantized_relu [("negative_slope", .float (1 / 4))]
-    text r = some "quantized_relu(8,0,0.25)" ∧ slot r "use_sigmoid" = some (.float (1 / 4)) ∧
-      slot r "negative_slope" = some (.float 0) := by decide +kernel
-/-- `quantized_relu_po2(negative_slope=0.25)` → `max_value` slot -/
-theorem C10_str_counterexample_relu_po2_slope :
+    text r = some "quantized_relu(8,0,0,0.25)" ∧ slot r "use_sigmoid" = some (.int 0) ∧
+      slot r "negative_slope" = some (.float (1 / 4)) := by decide +kernel
+/-- `quantized_relu(use_stochastic_rounding=True)` printed "quantized_relu(8,0,0,1)"
+    (→ negative_slope=1) -/
+theorem C10_str_relu_stochastic_fixed_witness :
+    let r := strTrip .quantized_relu [("use_stochastic_rounding", .bool true)]
+    text r = some "quantized_relu(8,0,0,0.0,1)" ∧ slot r "negative_slope" = some (.float 0) ∧
+      slot r "use_stochastic_rounding" = some (.int 1) := by decide +kernel
+/-- `quantized_relu_po2(negative_slope=0.25)` printed "quantized_relu_po2(8,0.25)" (→ max_value) -/
+theorem C10_str_relu_po2_slope_fixed_witness :
     let r := strTrip .quantized_relu_po2 [("negative_slope", .float (1 / 4))]
-    text r = some "quantized_relu_po2(8,0.25)" ∧ slot r "max_value" = some (.float (1 / 4)) ∧
-      slot r "negative_slope" = some (.int 0) := by decide +kernel
-/-- `quantized_po2(max_value=0.5)` prints the bound through `int()`: "quantized_po2(8,0)" -/
-theorem C10_str_counterexample_po2_max_value :
+    text r = some "quantized_relu_po2(8,None,0.25)" ∧ slot r "max_value" = some .none ∧
+      slot r "negative_slope" = some (.float (1 / 4)) := by decide +kernel
+/-- `quantized_po2(max_value=0.5)` printed the bound through `int()`: "quantized_po2(8,0)";
+    an integral bound keeps its integer text -/
+theorem C10_str_po2_max_value_fixed_witness :
     let r := strTrip .quantized_po2 [("max_value", .float (1 / 2))]
-    text r = some "quantized_po2(8,0)" ∧ slot r "max_value" = some (.int 0) := by decide +kernel
-/-- `quantized_ulaw(u=100.0)` prints fine but options `__str__` never prints are lost, e.g.
-    `quantized_bits(scale_axis=0)`, `quantized_relu(relu_upper_bound=1.5)` -/
-theorem C10_str_counterexample_omitted_options :
-    slot (strTrip .quantized_bits [("alpha", .str "auto"), ("scale_axis", .int 0)]) "scale_axis"
-        = some .none ∧
-    slot (strTrip .quantized_relu [("relu_upper_bound", .float (3 / 2))]) "relu_upper_bound"
-        = some .none ∧
-    slot (strTrip .quantized_bits [("qnoise_factor", .float (1 / 2))]) "qnoise_factor"
-        = some (.float 1) := by decide +kernel
-/-- list-valued keyword options print in Python syntax, which safe_eval cannot read -/
-theorem C10_str_counterexample_binary_list :
-    let r := strTrip .binary [("scale_axis", .list [.int 2, .int 3])]
-    text r = some "binary(scale_axis=[2,3])" ∧ outcome r = some .syntaxError := by decide +kernel
-/-- `str(quantized_hswish(...))` raises for every instance (assert on a str being an int) -/
-theorem C10_str_counterexample_hswish (q : Q) (h : q.cls = .quantized_hswish) :
-    printQ q = .error .assertionError := by
-  unfold printQ flags; rw [h]
-/-- `str(quantized_linear(alpha=<number>))` raises UnboundLocalError -/
-theorem C10_str_counterexample_linear_alpha :
-    outcome (strTrip .quantized_linear [("alpha", .float 2)]) = some .unboundLocal := by
+    text r = some "quantized_po2(8,0.5)" ∧ slot r "max_value" = some (.float (1 / 2)) ∧
+      text (strTrip .quantized_po2 [("max_value", .float 4)]) = some "quantized_po2(8,4)" := by
   decide +kernel
-/-- po2 quantizers with stochastic rounding and no max_value: `int(None)` raises TypeError -/
-theorem C10_str_counterexample_po2_stochastic :
-    outcome (strTrip .quantized_po2 [("use_stochastic_rounding", .bool true)]) = some .typeError ∧
-    outcome (strTrip .quantized_relu_po2 [("use_stochastic_rounding", .bool true)])
-      = some .typeError := by decide +kernel
+/-- options `__str__` never printed are printed as keywords when they differ from the default -/
+theorem C10_str_omitted_options_fixed_witness :
+    slot (strTrip .quantized_bits [("alpha", .str "auto"), ("scale_axis", .int 0)]) "scale_axis"
+        = some (.int 0) ∧
+    slot (strTrip .quantized_relu [("relu_upper_bound", .float (3 / 2))]) "relu_upper_bound"
+        = some (.float (3 / 2)) ∧
+    slot (strTrip .quantized_bits [("use_ste", .bool false)]) "use_ste" = some (.bool false) ∧
+    slot (strTrip .quantized_po2 [("log2_rounding", .str "floor")]) "log2_rounding"
+        = some (.str "floor") ∧
+    text (strTrip .quantized_bits [("alpha", .str "auto_po2"), ("scale_axis", .int 0),
+        ("elements_per_scale", .int 2), ("min_po2_exponent", .int (-1))])
+      = some "quantized_bits(8,0,1,alpha='auto_po2',scale_axis=0,elements_per_scale=2,min_po2_exponent=-1)" := by
+  decide +kernel
+/-- list-valued keyword options print in Python syntax, which safe_eval now reads -/
+theorem C10_str_binary_list_fixed_witness :
+    let r := strTrip .binary [("scale_axis", .list [.int 2, .int 3])]
+    text r = some "binary(scale_axis=[2,3])" ∧
+      slot r "scale_axis" = some (.list [.int 2, .int 3]) := by decide +kernel
+/-- `str(quantized_hswish(...))` no longer raises (it raised for every instance) -/
+theorem C10_str_hswish_fixed_witness :
+    let r := strTrip .quantized_hswish []
+    text r = some "quantized_hswish(8,0,0,relu_shift=3,relu_upper_bound=6)" ∧
+      slot r "relu_shift" = some (.int 3) := by decide +kernel
+/-- `str(quantized_linear(alpha=<number>))` no longer raises UnboundLocalError -/
+theorem C10_str_linear_alpha_fixed_witness :
+    let r := strTrip .quantized_linear [("alpha", .float 2)]
+    text r = some "quantized_linear(8,0,1,alpha=2.0)" ∧ slot r "alpha" = some (.float 2) := by
+  decide +kernel
+/-- po2 quantizers with stochastic rounding and no max_value no longer raise TypeError -/
+theorem C10_str_po2_stochastic_fixed_witness :
+    text (strTrip .quantized_po2 [("use_stochastic_rounding", .bool true)])
+      = some "quantized_po2(8,None,1)" ∧
+    slot (strTrip .quantized_po2 [("use_stochastic_rounding", .bool true)]) "max_value"
+      = some .none ∧
+    text (strTrip .quantized_relu_po2 [("use_stochastic_rounding", .bool true)])
+      = some "quantized_relu_po2(8,None,0,1)" := by decide +kernel
+/-- strings that were read back correctly before are unchanged -/
+theorem C10_str_unchanged_witness :
+    text (strTrip .quantized_relu [("bits", .int 4), ("integer", .int 2)]) = some "quantized_relu(4,2)" ∧
+    text (strTrip .quantized_bits [("alpha", .int 1)]) = some "quantized_bits(8,0,0,alpha=1)" ∧
+    text (strTrip .quantized_relu [("bits", .int 6), ("integer", .int 4), ("use_sigmoid", .int 1)])
+      = some "quantized_relu(6,4,1)" ∧
+    text (strTrip .quantized_po2 [("bits", .int 4), ("max_value", .int 8)]) = some "quantized_po2(4,8)" ∧
+    text (strTrip .binary []) = some "binary()" := by decide +kernel
+
+/-! ### kept: `qnoise_factor` is never printed (recorded finding, see notes/C10.md) -/
+
+/-- `qnoise_factor` is training-time state (a tensor under QAdaptiveActivation, a variable under
+    the QNoiseScheduler) and is still not part of the text: the rebuilt quantizer has 1.0 -/
+theorem C10_str_counterexample_qnoise_factor :
+    slot (strTrip .quantized_bits [("qnoise_factor", .float (1 / 2))]) "qnoise_factor"
+        = some (.float 1) ∧
+    slot (strTrip .quantized_relu [("qnoise_factor", .float (1 / 2))]) "qnoise_factor"
+        = some (.float 1) ∧
+    "qnoise_factor" ∉ printedNames .quantized_bits := by decide +kernel
 
 /-! ## non-vacuity -/
 
 /-- a grammar call with every literal kind, mixed positional / keyword -/
 example : Grammar "quantized_bits"
     [.pos (.int false ['4']), .pos (.int true ['1', '2']), .kw "alpha" (.str false "auto_po2".toList),
-     .kw "x" (.float true ['1'] ['5', '0'] (some (true, ['3']))), .kw "y" .none, .kw "z" (.bool true)] :=
+     .kw "x" (.float true ['1'] ['5', '0'] (some (true, ['3']))), .kw "y" .none, .kw "z" (.bool true),
+     .kw "w" (.list [.int false ['2'], .float true ['0'] ['5'] none]), .pos (.list [])] :=
   ⟨by decide, by decide⟩
 
-/-- `quantized_bits(4, 1, alpha="auto")` is `Printable` -/
-example : ∃ q, construct .quantized_bits [.int 4, .int 1] [("alpha", .str "auto")] = .ok q ∧
-    Printable q := by
-  refine ⟨_, rfl, [.pos (.int false ['4']), .pos (.int false ['1']), .pos (.int false ['1']),
-    .kw "alpha" (.str false "auto".toList)], ⟨by decide, by decide⟩, by decide, ?_, ?_⟩
-  · decide +kernel
-  · decide +kernel
+/-- the hypotheses of the round-trip theorem (`roundTripHyps` decides them) hold for instances
+    with float, string and list flags -/
+example :
+    roundTripHyps .quantized_relu [.int 4, .int 2]
+      [("negative_slope", .float (1 / 4)), ("relu_upper_bound", .float (3 / 2)),
+       ("use_ste", .bool false)] = true ∧
+    roundTripHyps .quantized_bits [.int 4, .int 1]
+      [("alpha", .str "auto_po2"), ("scale_axis", .int 0),
+       ("elements_per_scale", .list [.int 2, .int 2])] = true ∧
+    roundTripHyps .bernoulli [] [("alpha", .str "auto"), ("temperature", .float (9 / 2))] = true ∧
+    roundTripHyps .quantized_relu_po2 []
+      [("max_value", .float (1 / 2)), ("use_stochastic_rounding", .bool true),
+       ("log2_rounding", .str "floor")] = true ∧
+    roundTripHyps .quantized_hswish [] [("alpha", .str "auto"), ("scale_axis", .int 0)] = true := by
+  decide +kernel
 
-/-- `bernoulli(alpha="auto", temperature=4.5)` is `Printable` (a float flag) -/
-example : ∃ q, construct .bernoulli [] [("alpha", .str "auto"), ("temperature", .float (9 / 2))] = .ok q ∧
-    Printable q := by
-  refine ⟨_, rfl, [.kw "alpha" (.str false "auto".toList),
-    .kw "temperature" (.float false ['4'] ['5'] none)], ⟨by decide, by decide⟩, by decide, ?_, ?_⟩
-  · decide +kernel
-  · decide +kernel
+/-- `Typed` does exclude something: a fraction where a flag is expected (`str(int(0.5))` is "0") -/
+example : ¬ Typed ⟨.quantized_tanh, [("bits", .int 8), ("use_stochastic_rounding", .float (1 / 2)),
+    ("symmetric", .bool false), ("use_real_tanh", .bool false)]⟩ := by decide +kernel
 
 end QKV.Props.C10
